@@ -180,9 +180,12 @@ def build(ctx):
                 return be.Verdict(be.REFUTED, "STRUCT", witness={}, detail=f"the stored row is not the solver's result: {nr}")
             if S.N is not tm.sub(resv.nt, tm.const(1)):
                 return be.Verdict(be.REFUTED, "STRUCT", witness={}, detail=f"the loop runs over range({S.N}), not over every step of the time grid")
+            fld = S.res.fields.get("pseudopressure")
+            if not isinstance(fld, ArrV) or fld.dtype != "f8":
+                return be.Verdict(be.REFUTED, "STRUCT", witness={}, detail=f"the field is stored with dtype {getattr(fld, 'dtype', None)}, not float64: every level is rounded to that precision before it feeds the next step, so the stored row is not the solver's result at rounding level")
             return with_models(be.Verdict(be.PROVED, "STRUCT", detail="pseudopressure[i+1] = _solve(_build_matrix(kt_h2), b) for i in range(len(time) - 1)"), S.o)
 
-        obs.append(Obligation(f"{tag}.step.uses_contracts", f"{cls}.simulate: for every i in range(len(time)-1) the stored row i+1 is _solve(_build_matrix(kt_h2), b)", uses, fq, "STRUCT", lambda w: real_step_check()))
+        obs.append(Obligation(f"{tag}.step.uses_contracts", f"{cls}.simulate: for every i in range(len(time)-1) the stored row i+1 is _solve(_build_matrix(kt_h2), b), kept in a float64 field", uses, fq, "STRUCT", lambda w: real_step_check()))
 
         def mesh(cls=cls, mkstep=mkstep):
             S = mkstep()
@@ -229,6 +232,8 @@ def build(ctx):
             return with_models(v, S.o)
 
         obs.append(Obligation(f"{tag}.step.rows", f"{cls}: the stored row x satisfies -k_r x[r-1] + (1 + 2 k_r) x[r] - k_r x[r+1] = pp[i, r] at interior nodes and (1 + k) x[n-1] - k x[n-2] = pp[i, n-1] at the no-flow node, k = kt_h2 of this step", rows, fq, "SMT", lambda w: real_step_check()))
+
+    obs.append(resv.twophase_delegates(ctx))
 
     def canary():
         S = resv.Step(ctx, "IdealReservoir", "none")
